@@ -81,6 +81,23 @@ def cases(tier, seed):
                     ops += ["ps.reset %02x" % rnd.choice([0xff, 0x00, 0x5a]), "ps.storepart %s %d" % (rhex(rnd, l), o), "ps.validate", "ps.fetch"]
                 cs.append(Case("g%d" % n, ops, ("grid", kind)))
                 n += 1
+    # a live instance whose checksum is configured again (width and algorithm change, no new init): what an earlier
+    # configuration left in the instance must not show
+    m = 0
+    for ds in (1, 2, 5, 9):
+        for place in (0, 3):
+            for buf in ("none", "0", "2", str(ds + 1)):
+                for first, second in ((("sum32", 0xffffffff), ("crc16", 0)), (("sum32", 0x12345678), ("crc16", 0xffff)),
+                                      (("crc16", 0xffff), ("sum32", 0)), (("sum32", 0xffff0000), ("sum32", 1))):
+                    msize = place + 4 + ds + 3
+                    ops = ["ps.init %d %02x %d %s %d %d %s" % (msize, rnd.choice([0, 0xff, 0xa5]), place, first[0], first[1], ds, buf),
+                           "ps.store %s" % rhex(rnd, ds), "ps.validate",
+                           "ps.resum %s %d" % second, "ps.validate", "ps.store %s" % rhex(rnd, ds), "ps.validate", "ps.fetch"]
+                    for (o, l) in [(0, 1), (ds - 1, 1), (0, ds), (ds // 2, 0)]:
+                        ops += ["ps.storepart %s %d" % (rhex(rnd, l), o), "ps.validate", "ps.fetch"]
+                    ops += ["ps.resum %s %d" % first, "ps.validate", "ps.store %s" % rhex(rnd, ds), "ps.validate", "ps.fetch"]
+                    cs.append(Case("resum%d" % m, ops, ("reconfigured",)))
+                    m += 1
     return cs
 
 
